@@ -27,13 +27,24 @@ static std::string gen_addr_field(Tape &t, int *kind)
 {
 	static const char *ODD[] = {"10.2", "0x0a.1.2.3", "010.1.1.1", "1.2.3.4.5", "256.1.1.1", "1.2.3", "1..2.3", ".1.2.3.4", "1.2.3.4.", "10.0.0.2/8", "localhost", "a.b.c.d", "", "4294967295", "1.2.3.-4", "+1.2.3.4", "1.2.3.4 ", " 1.2.3.4", "999.999.999.999", "00000000010.0.0.1"};
 	std::string s;
-	*kind = (int)t.pick({5, 6, 3, 2, 2, 2});
+	*kind = (int)t.pick({5, 6, 3, 2, 2, 2, 3});
 	std::string valid = fmt("%u.%u.%u.%u", t.below(256), t.below(256), t.below(256), t.below(256));
 	switch (*kind) {
 	case 0: s = valid; break;
 	case 1: s = valid + SHELL[t.below(sizeof SHELL / sizeof SHELL[0])]; break;
 	case 2: s = ODD[t.below(sizeof ODD / sizeof ODD[0])]; if (t.chance(1, 2)) s += SHELL[t.below(sizeof SHELL / sizeof SHELL[0])]; break;
 	case 3: s = SHELL[t.below(sizeof SHELL / sizeof SHELL[0])]; break;
+	case 6: {   // four valid decimal fields, but one to three of the separating dots replaced by another single byte
+		s = valid; int nrep = 1 + (int)t.below(3);
+		for (int k = 0; k < nrep; k++) {
+			std::vector<size_t> dots; for (size_t i = 0; i < s.size(); i++) if (s[i] == '.') dots.push_back(i);
+			if (dots.empty()) break;
+			char c = t.chance(2, 3) ? " \n\t;|&`$>,:/"[t.below(13)] : (char)(1 + t.below(255));
+			if (c == '-' || c == 0) c = ' ';
+			s[dots[t.below((uint32_t)dots.size())]] = c;
+		}
+		break;
+	}
 	case 4: { size_t n = 60 + t.below(140); for (size_t i = 0; i < n; i++) s += (char)("0123456789.;|$` \n"[t.below(17)]); break; }
 	default: { size_t n = t.below(40); for (size_t i = 0; i < n; i++) { char c = (char)t.below(256); if (c == '-') c = '_'; s += c; } break; }
 	}
